@@ -2,7 +2,7 @@
    Only ExtrOcamlBasic is used: bool, option, unit, list, prod, sumbool, sumor are mapped to the
    OCaml types; Z, N, positive, nat stay the extracted Coq datatypes.  No Extract Constant. *)
 From Coq Require Extraction ExtrOcamlBasic.
-From MS Require Import PyBase Buffer Bits Schc Compute Parsers Json CoapSemantic SchcBytes ParserBytes ComputeBytes ManagerBytes CoapSemanticBytes.
+From MS Require Import PyBase Buffer Bits Schc Compute Parsers Json CoapSemantic SchcBytes ParserBytes ComputeBytes ManagerBytes CoapSemanticBytes BufferHeap.
 Extraction Language OCaml.
 Extraction "model.ml"
   b_new b_copy b_shift b_pad b_value b_getitem b_getitem_int b_add b_and b_or b_xor b_invert
@@ -12,9 +12,10 @@ Extraction "model.ml"
   schc_compress schc_decompress compute_functions encode_length decode_var field_match rule_matches
   ipv6_payload_length ipv4_total_length ipv4_checksum udp_length udp_checksum sctp_checksum crc32c
   factory parse_coap parse_sctp parse_udp parse_ipv4 parse_ipv6
-  buf_to_json buf_from_json mm_to_json mm_from_json field_to_json field_from_json pdesc_to_json pdesc_from_json
+  buf_to_json buf_from_json mm_to_json mm_from_json field_to_json field_from_json header_to_json header_from_json pdesc_to_json pdesc_from_json
   rfd_to_json rfd_from_json rule_to_json rule_from_json context_to_json context_from_json
   parse_coap_semantic coap_unparse packet_parse
   bcompress bdecompress bdecompress_c bfactory bfield_match bmatch_schc_loop
   bmatch_packet_descriptor bmatch_schc_packet bcm_compress bcm_decompress bschc_compress bschc_decompress
-  bparse_coap_semantic bcoap_unparse.
+  bparse_coap_semantic bcoap_unparse
+  hstep hrun hop_pure.
